@@ -19,11 +19,14 @@
  *                   k (a symbolic link to a regular file), p (a FIFO)
  *   O<v>            what an intercepted system() writes to the file behind the last " >" of a builtin_exec command
  *                   (value spec); without it the command has no output
- *   i               spifconf_init_subsystem          -> i
+ *   i               spifconf_init_subsystem          -> i      (before it the heap is dirtied: blocks of many sizes, among them every
+ *                   size the four tables pass through, are allocated, filled with 0xA5 / 0x5A (alternating) and freed; every block
+ *                   that grows through realloc gets a fresh block whose new part is painted with the same byte, and the sanitizer
+ *                   fills every malloc'ed block: no part of a table is zero by luck)
  *   f               spifconf_free_subsystem          -> f:vars=<0|1>,tabs=<0|1>
  *   r<hexname>      spifconf_register_context        -> r=<id>
  *   R<n>            n contexts named g<handler no.>  -> R=<last id>
- *   b<n>            n built-ins named b<k>           -> b=<last id>
+ *   b<n>            n built-ins named b<k>           -> b=<last id>     (each answers the string "<b>")
  *   p<name>         spifconf_parse(name, NULL, NULL) -> p[<events>]ret=..,fi=..,ci=..,open=..,sp=..
  *   q               spifconf_parse("a", NULL, NULL), only faults, termination and spawning observed -> q:ok, or q:SPAWNED when a process was
  *                   created although no file of the case contains a backquote, %exec or %preproc
@@ -79,6 +82,42 @@ int __wrap_posix_spawn(pid_t *pid, const char *p, const void *fa, const void *at
 int __wrap_posix_spawnp(pid_t *pid, const char *p, const void *fa, const void *at, char *const a[], char *const e[])
 { lv_spawns++; return ENOSYS; }
 
+/* ---- no zero-filled memory by luck ---- */
+const char *__asan_default_options(void) { return "max_malloc_fill_size=1048576"; }
+static unsigned char lv_heap_paint = 0x5A;
+size_t malloc_usable_size(void *p);
+void *__real_realloc(void *p, size_t n);
+void *__wrap_realloc(void *q, size_t n)
+{
+    /* a block that grows gets fresh memory: new block, painted, the old content copied, the old block released */
+    size_t old = q ? malloc_usable_size(q) : 0;
+    void *p;
+    if (!n) return __real_realloc(q, n);
+    p = malloc(n);
+    if (!p) return NULL;
+    memset(p, lv_heap_paint, n);
+    if (q) { memcpy(p, q, old < n ? old : n); free(q); }
+    return p;
+}
+static void lv_dirty_heap(void)
+{
+    static const size_t sz[] = { 8, 16, 24, 32, 48, 64, 80, 96, 112, 128, 144, 160, 176, 192, 208, 224, 240, 256, 288, 304, 320, 336,
+                                 352, 400, 480, 512, 624, 640, 656, 800, 960, 1024, 1264, 1280, 1296, 1920, 2048, 2544, 2560, 2576,
+                                 3840, 4096, 5120, 7680, 8192, 10240, 15360, 20480 };
+    void *blk[4 * sizeof(sz) / sizeof(sz[0])];
+    size_t i, n = 0;
+    lv_heap_paint = (unsigned char) ~lv_heap_paint;
+    for (i = 0; i < sizeof(sz) / sizeof(sz[0]); i++) {
+        int r;
+        for (r = 0; r < 4; r++) {
+            void *p = malloc(sz[i]);
+            if (p) { memset(p, lv_heap_paint, sz[i]); blk[n++] = p; }
+        }
+    }
+    for (i = 0; i < n; i += 2) free(blk[i]);
+    for (i = 1; i < n; i += 2) free(blk[i]);
+}
+
 /* ---- heap ledger ---- */
 static volatile long lv_live;
 static void lv_mhook(const volatile void *p, size_t n) { if (p) lv_live++; }
@@ -129,7 +168,7 @@ static ctx_handler_t lv_handlers[] = { R100(HT, 0) R100(HT, 1) R100(HT, 2) R100(
 #define NHANDLERS 600
 static int lv_nexth;
 
-static spif_charptr_t lv_dummy_builtin(spif_charptr_t p) { return NULL; }
+static spif_charptr_t lv_dummy_builtin(spif_charptr_t p) { return (spif_charptr_t) strdup("<b>"); }
 
 /* ---- may the text of this case spawn a process?  (a backquote, or '%' - optionally followed by
  * blanks or quote characters - and the word exec or preproc, case-insensitively) ---- */
@@ -524,6 +563,7 @@ static void do_hist(int n, char **t)
             printf("s:%s ", check_dirscan(a));
             break;
         case 'i':
+            lv_dirty_heap();
             spifconf_init_subsystem();
             printf("i ");
             break;
